@@ -11,6 +11,11 @@
    renderings with the same meaning give the same tree (layout_insensitive).  view is defined in Proofs/CstMain.v.
    The same over Unicode (Spec/CstU.v: names, values, text, comments, PIs are lists of scalar values in the 5th-edition
    Name / Char classes, rendered in UTF-8): parse_render_sem_u, layout_insensitive_u, render_valid_utf8.
+   The largest fragment (Spec/CstFull.v stage S3 = Unicode + namespaces + pieces + character-data entities, pinned under
+   C06) extended by the whole PROLOG (Spec/CstFullS5.v): byte order mark, XML declaration, DOCTYPE with external id and an
+   internal subset holding every kind of declaration (general / parameter / external / unparsed entities, ELEMENT /
+   ATTLIST / NOTATION, comments and PIs -- which become nodes under the Root), CR in markup whitespace:
+   parse_render_sem_full_s5 and prolog_insensitive_full_s5 (same meaning => same tree, whatever the prolog).
    Statements are pinned here (copied verbatim from the proof files by tools/pin_props.py);
    each is re-proved by `exact` and followed by Print Assumptions. *)
 From Coq Require Import Ascii String.
@@ -19,8 +24,9 @@ Import ListNotations.
 From RX Require Import Generated.
 From RX.Model Require Import Base CharClass Stream Tokenizer Doc Builder Parse Api.
 From RX.Spec Require Cst.
-From RX.Spec Require CstU.
+From RX.Spec Require CstU CstNs CstFull CstFullS5.
 From RX.Proofs Require Import LexerProofs RejectProofs CstMain CstUMain.
+From RX.Proofs Require CstNsView CstFullMain CstFullS5.
 Open Scope N_scope.
 
 (* ---- Proofs/CstMain.v ---- *)
@@ -76,8 +82,37 @@ Theorem C03_layout_insensitive_u :
 Proof. exact layout_insensitive_u. Qed.
 Print Assumptions C03_layout_insensitive_u.
 
-(* ---- Proofs/LexerProofs.v ---- *)
+(* ---- Proofs/CstFullS5.v ---- *)
 Module G2.
+Import RX.Spec.CstFull. Import RX.Spec.CstFullS5. Import RX.Proofs.CstNsView. Import RX.Proofs.CstFullMain. Import RX.Proofs.CstFullS5.
+Theorem C03_parse_render_sem_full_s5 :
+  forall (d : S5.doc) (opt : options),
+  S5.wf_doc d = true ->
+  (S5.has_dtd d = true -> allow_dtd opt = true) ->                (* a DOCTYPE needs the option *)
+  N.of_nat (length (S5.sem d)) < nodes_limit opt ->               (* room for all nodes + the Root *)
+  N.of_nat (length (S5.render d)) <= u32_max ->                    (* the input is at most u32::MAX bytes long *)
+  S5.distinct_decls_le d (N.to_nat 65535) ->                       (* at most 65535 distinct declared bindings *)
+  1 + N.of_nat (S5.ns_cost d) <= u32_max ->                        (* the namespace table fits *)
+  exists doc, parse (S5.render d) opt = Ok doc /\ view (S5.render d) doc = Some (S5.sem d).
+Proof. exact parse_render_sem_full_s5. Qed.
+Print Assumptions C03_parse_render_sem_full_s5.
+
+Theorem C03_prolog_insensitive_full_s5 :
+  forall (d1 d2 : S5.doc) opt,
+  S5.wf_doc d1 = true -> S5.wf_doc d2 = true -> allow_dtd opt = true -> S5.sem d1 = S5.sem d2 ->
+  N.of_nat (length (S5.sem d1)) < nodes_limit opt ->
+  N.of_nat (length (S5.render d1)) <= u32_max -> N.of_nat (length (S5.render d2)) <= u32_max ->
+  S5.distinct_decls_le d1 (N.to_nat 65535) -> S5.distinct_decls_le d2 (N.to_nat 65535) ->
+  1 + N.of_nat (S5.ns_cost d1) <= u32_max -> 1 + N.of_nat (S5.ns_cost d2) <= u32_max ->
+  exists x1 x2, parse (S5.render d1) opt = Ok x1 /\ parse (S5.render d2) opt = Ok x2 /\
+                view (S5.render d1) x1 = view (S5.render d2) x2.
+Proof. exact prolog_insensitive_full_s5. Qed.
+Print Assumptions C03_prolog_insensitive_full_s5.
+
+End G2.
+
+(* ---- Proofs/LexerProofs.v ---- *)
+Module G3.
 Local Notation token := Tokenizer.token.
 Theorem C03_parse_comment_post :
   forall (text : bytes), forall s acc s' acc', SInv text s ->
@@ -164,10 +199,10 @@ Theorem C03_parse_element_tokens :
 Proof. exact parse_element_tokens. Qed.
 Print Assumptions C03_parse_element_tokens.
 
-End G2.
+End G3.
 
 (* ---- Proofs/RejectProofs.v ---- *)
-Module G3.
+Module G4.
 Local Notation token := Tokenizer.token.
 Theorem C03_ok_document_shape :
   forall text dtd toks,
@@ -188,4 +223,4 @@ Theorem C03_ok_no_text_before_root :
 Proof. exact ok_no_text_before_root. Qed.
 Print Assumptions C03_ok_no_text_before_root.
 
-End G3.
+End G4.
